@@ -233,6 +233,15 @@ def who_may(chk, P, prefix):
                         sites.append(c.loc)
                         if owner not in allowed:
                             return False, "Channel::%s on the pending batch is called from %s; only %s may" % (nm, owner, allowed), [], c.loc
+                if (c.callee.get("path") or "") in ("emit_batcher::Watchers::notify_on_take", "emit_batcher::Watchers::notify_on_flush"):
+                    sites.append(c.loc)
+                    if owner != "emit_batcher::Receiver::<T>::exec":
+                        return False, ("%s fires the %s watchers at %s: only the receiver may, on the watchers of the batch it "
+                                       "took, after that batch's last attempt; a sender firing them completes flushes that are "
+                                       "still waiting on the batch in flight" % (owner, nm.replace("notify_on_", ""), c.loc)), [], c.loc
+                    names, root = state_field_path(b.origin(c.args[0]))
+                    if names[:1] == ["next_batch"]:
+                        return False, "the receiver fires watchers of the *pending* batch in place at %s" % c.loc, [], c.loc
                 if (c.callee.get("path") or "") in ("emit_batcher::Watchers::push_on_take", "emit_batcher::Watchers::push_on_flush"):
                     want = S + ("when_empty" if nm == "push_on_take" else "when_flushed")
                     sites.append(c.loc)
@@ -252,8 +261,8 @@ def who_may(chk, P, prefix):
                         return False, ("%s replaces state.%s (%s): only the receiver may take or replace the pending batch or "
                                        "its watchers; a sender doing so discards registered flush/empty callbacks and "
                                        "unaccounted items" % (owner, ".".join(names), how)), [], loc
-        if len(sites) < 9:
-            return False, "expected at least 9 mutation sites of the shared state, found %d" % len(sites), [], None
+        if len(sites) < 12:
+            return False, "expected at least 12 mutation/notification sites of the shared state, found %d" % len(sites), [], None
         return True, "", sites
     chk.ob("%s.R3:who-may-mutate" % prefix, "items enter the pending batch only in send/try_send, it is cleared only in send, replaced only by the receiver; flags have one writer each", f)
 
@@ -1137,3 +1146,44 @@ def capacity_hint(chk, P, prefix):
 
 def worker_panics(chk, P, prefix):
     capacity_hint(chk, P, prefix)
+
+
+def wait_closures(chk, P, prefix):
+    """Every caller of send_or_wait: the closure that waits for room sees the timeout only as the *remaining* time
+    send_or_wait hands it (its own parameter); it must not capture the caller's total timeout."""
+    def f():
+        sites = []
+        for b in batcher_bodies(P):
+            for c in b.calls(normal_only=True):
+                if c.callee.get("name") != "send_or_wait" or len(c.args) != 5:
+                    continue
+                total = {r for r in common.roots(b.origin(c.args[2])) if r[0] in ("param", "capture", "callsite")}
+                o = b.origin(c.args[4])
+                if not (o[0] == "agg" and o[1].get("ak") == "closure"):
+                    return False, "the wait callback of send_or_wait at %s is not a closure literal (rule needs re-reading)" % c.loc, [], c.loc
+                for cap in o[2]:
+                    if common.roots(cap) & total:
+                        return False, ("the wait closure passed to send_or_wait at %s captures the caller's total timeout (%s): a "
+                                       "sender that is woken, finds the queue full again and waits a second time would wait the "
+                                       "whole timeout again instead of the remaining time" % (c.loc, o_str(cap))), [], c.loc
+                cb = P.body(o[1]["def"])
+                if cb.argc != 3:
+                    return False, "the wait closure does not take (sender, remaining)", [], cb.span
+                # the remaining time reaches a waiting primitive (directly, or moved into the async block that waits)
+                used = False
+                for x in [cb] + P.closures_of(cb):
+                    for cc in x.calls(normal_only=True):
+                        if cc.callee.get("name") in ("wait_timeout", "wait", "timeout", "sleep", "recv_timeout", "park_timeout"):
+                            for a in cc.args:
+                                rs = common.roots(x.origin(a))
+                                if ("param", 3) in rs and x is cb or any(k == "capture" and v == cb.local_name(3) for k, v in rs):
+                                    used = True
+                    for bb, j, st in x.statements(normal_only=True):
+                        pass
+                if not used:
+                    return False, "the wait closure at %s never passes its remaining-time parameter to a waiting primitive" % cb.span, [], cb.span
+                sites.append(c.loc)
+        if len(sites) < 2:
+            raise mir.AnchorMissing("callers of send_or_wait (sync::blocking_send, tokio::send)")
+        return True, "", sites
+    chk.ob("%s.R3:wait-closures" % prefix, "blocking/async send wait only for the remaining time handed to them by send_or_wait", f)
